@@ -120,6 +120,9 @@ skip_array(const uint8_t * buf, const uint8_t * end)
 		/* Otherwise we should have a comma. */
 		if (*buf++ != ',')
 			return (end);
+
+		/* Skip optional whitespace before the next value. */
+		buf = skip_ws(buf, end);
 	} while (1);
 
 	/* NOTREACHED */
@@ -165,6 +168,11 @@ skip_object(const uint8_t * buf, const uint8_t * end)
 
 		/* Otherwise we should have a comma. */
 		if (*buf++ != ',')
+			return (end);
+
+		/* Skip optional whitespace; we need a name to follow. */
+		buf = skip_ws(buf, end);
+		if (buf == end)
 			return (end);
 	} while (1);
 
